@@ -168,7 +168,7 @@ def tpSpringForce (sqrt : K → K) (k x0 : K) (X1 X2 : Pose K) (s1 s2 : V3 K) : 
   let d := sqrt (normSq r_G)
   let stretch := d - x0
   let frcScalar := k * stretch
-  let f1_G := smul (frcScalar) r_G
+  let f1_G := smul (frcScalar / d) r_G
   (⟨cross s1_G f1_G, f1_G⟩, ⟨-(cross s2_G f1_G), -f1_G⟩)
 
 /-- `Force::TwoPointLinearSpringImpl::calcPotentialEnergy` -/
@@ -868,7 +868,7 @@ def expNormal (exp : K → K) (d0 d1 d2 kvNorm maxNormalForce pz vz : K) : ExpOu
   let fzElas := d1 * exp (-d2 * (pz - d0))
   let fzDamp := -kvNorm * vz * fzElas
   let fz := fzElas + fzDamp
-  let o1 : ExpOut K := if fz < 0 then ⟨fzElas, -fzElas, 0⟩ else ⟨fzElas, fzDamp, fz⟩
+  let o1 : ExpOut K := ⟨fzElas, fzDamp, fz⟩
   if maxNormalForce < o1.fz then ⟨maxNormalForce - o1.fzDamp, o1.fzDamp, maxNormalForce⟩ else o1
 
 /-- documented (ExponentialSpringForce.h): `fz = d₁exp(−d₂(pz−d₀)) (1 − cz vz)` -/
